@@ -2,10 +2,23 @@
    Only statements; every proof is [exact <lemma of proofs/TunerProofs.v>] (tiny glue allowed).
    Model: model/Tuner.v. [run_loop] = the try block of Tuner.run (state at loop exit, for every fuel =
    every prefix of the run), [run] = run_loop followed by the finally block. Scheduler, workers, poll
-   order, wall-clock and an extra user criterion are arbitrary oracles [o].
+   order, wall-clock and an extra user criterion are arbitrary oracles [o]. Every theorem is for all parameters,
+   in particular for BOTH settings of start_jobs_without_delay ([sjwd]), of asynchronous_scheduling ([async]) and -
+   unless the statement says otherwise - of wait_trial_completion_when_stopping ([wait_completion]).
    Traces are newest-first. [flag_of tr] = value of the most recent _stop_condition evaluation in tr;
    [guarded P tr] = every event of class P occurred while the most recent evaluation before it was False. *)
-From Verif Require Import model.Base model.Tuner proofs.TunerProofs proofs.TunerLivenessProofs.
+From Verif Require Import model.Base model.Tuner proofs.TunerProofs proofs.TunerLivenessProofs proofs.TunerEvalProofs.
+
+(* WHEN the stop condition is evaluated: the trace of every run starts with on_tuning_start followed by an evaluation
+   (i.e. before the first iteration), and the event recorded right after EVERY on_loop_end is an evaluation
+   ([evals_ok], newest first) - also in the iterations in which the loop only waits for running trials (search
+   space exhausted, or wait_trial_completion_when_stopping after the criterion held). The value of an evaluation is
+   criterion OR extra user criterion OR num_trials_failed > max_failures of the state at that point ([stop_condition]). *)
+Theorem c12_stop_condition_evaluation_points :
+  forall prm o fuel st x, run_loop prm o fuel = (st, x) ->
+    evals_ok (s_trace st) /\ exists c f rest, s_trace st = rest ++ [EStopCond c f; ECbTuningStart].
+Proof. exact run_loop_evals. Qed.
+Print Assumptions c12_stop_condition_evaluation_points.
 
 (* wait_trial_completion_when_stopping = False: once _stop_condition held at the end of an iteration,
    NO event of a loop iteration occurs any more (no on_loop_start, poll, result, suggest, start, resume,
@@ -16,16 +29,36 @@ Theorem c12_exit_at_first_true :
 Proof. exact exit_at_first_true. Qed.
 Print Assumptions c12_exit_at_first_true.
 
-(* both settings of the flag: no suggest / start_trial / resume_trial happens while the most recent
-   evaluation of the stop condition is True.
-   FULL STATEMENT NOT PROVED for wait=True ("no start after the criterion FIRST held"): with arbitrary
-   oracles the condition can become False again (non-monotone clock or user criterion, a Stopping trial
-   going back to InProgress), and the code then schedules again; that statement needs monotonicity of the
-   criterion as a hypothesis. Termination of the wait=True drain phase under fairness: c12_drain_terminates. *)
-Theorem c12_no_start_while_stop_holds_partial :
+(* both settings of the flag, monotone criterion or not: once the stop condition holds at an evaluation point, no
+   suggest / start_trial / resume_trial happens until an evaluation at which it no longer holds
+   ([guarded sched_ev]: every such event occurred while the most recent evaluation before it was False);
+   with wait=False the loop exits at that point (c12_exit_at_first_true). *)
+Theorem c12_no_start_while_stop_holds :
   forall prm o fuel st x, run_loop prm o fuel = (st, x) -> guarded sched_ev (s_trace st).
 Proof. exact no_start_after_stop. Qed.
-Print Assumptions c12_no_start_while_stop_holds_partial.
+Print Assumptions c12_no_start_while_stop_holds.
+
+(* "no start after the condition held FOR THE FIRST TIME" is false for wait=True when the condition can become
+   False again (here: an extra user criterion that is True at the second evaluation only): witness *)
+Fixpoint start_after_hold (seen : bool) (chrono : list event) : bool :=
+  match chrono with
+  | [] => false
+  | EStopCond _ true :: r => start_after_hold true r
+  | EBStart _ _ _ :: r => seen || start_after_hold seen r
+  | _ :: r => start_after_hold seen r
+  end.
+Definition ex12r_oracles : oracles :=
+  {| o_world := fun n => if Nat.eqb n 0 then ([{| r_metric := 1; r_cost := 0; r_ts := 1 |}], WCompleted)%Q else ([], WInProgress);
+     o_ord := fun _ => []; o_dec := fun _ => CONTINUE; o_sug := fun n => SStart (Z.of_nat n) None;
+     o_clk := fun _ => 0%Q; o_ext := fun n => Nat.eqb n 1 |}.
+Definition ex12r_params : params :=
+  {| n_workers := 2; async := true; wait_completion := true; max_failures := 1; sjwd := true; c_wallclock := None; c_evals := None;
+     c_started := None; c_completed := None; c_finished := None; c_cost := None; c_min_metric := None; c_max_metric := None |}.
+Theorem c12_no_start_after_first_hold_refuted :
+  exists prm o fuel, wait_completion prm = true /\
+    start_after_hold false (rev (s_trace (fst (run_loop prm o fuel)))) = true.
+Proof. exists ex12r_params, ex12r_oracles, 4%nat. vm_compute. split; reflexivity. Qed.
+Print Assumptions c12_no_start_after_first_hold_refuted.
 
 (* how the loop ends when no exception is raised: the stop condition holds, or suggest returned None
    (StopIteration) and no trial is running; with wait=True additionally no trial is running;
@@ -64,14 +97,36 @@ Print Assumptions c12_overshoot_finished.
    finished can exceed budget + n_workers (up to budget + 2*n_workers); that is the documented purpose of
    the flag and not claimed. *)
 
-(* max_num_evaluations: FULL STATEMENT ("overshoot <= n_workers") IS FALSE for the model and the code
-   when a poll returns several results per trial; what holds: whenever the stop condition was False at an
-   iteration end the count was within budget, so the overshoot is bounded by the number of results
-   returned by the polls since then (one poll when wait=False). *)
-Theorem c12_overshoot_evaluations_partial :
+(* max_num_evaluations. "Overshoot <= n_workers" is FALSE when a poll returns several results per trial
+   (c12_overshoot_evaluations_n_workers_refuted); what holds, with wait=False: at loop exit the count exceeds the
+   budget by at most the number of results the LAST poll returned ([last_fetch]); and whenever the stop condition was
+   False at an iteration end the count was within budget. (With wait=True the running trials keep reporting while the
+   loop waits for them, by design.) *)
+Theorem c12_overshoot_evaluations :
+  forall prm o v fuel st x, wait_completion prm = false -> c_evals prm = Some v -> (0 <= v)%Z ->
+    run_loop prm o fuel = (st, x) -> (s_count st <= v + Z.of_nat (last_fetch (s_trace st)))%Z.
+Proof. exact overshoot_evaluations. Qed.
+Print Assumptions c12_overshoot_evaluations.
+
+Theorem c12_evaluations_within_budget_while_running :
   forall prm o st st' v, c_evals prm = Some v -> iteration_end prm o st = (st', false) -> (s_count st' <= v)%Z.
 Proof. exact evals_bound_at_false_end. Qed.
-Print Assumptions c12_overshoot_evaluations_partial.
+Print Assumptions c12_evaluations_within_budget_while_running.
+
+Definition ex12e_oracles : oracles :=
+  {| o_world := fun _ => ([{| r_metric := 1; r_cost := 0; r_ts := 1 |}; {| r_metric := 1; r_cost := 0; r_ts := 2 |};
+                           {| r_metric := 1; r_cost := 0; r_ts := 3 |}], WInProgress)%Q;
+     o_ord := fun _ => []; o_dec := fun _ => CONTINUE; o_sug := fun n => SStart (Z.of_nat n) None;
+     o_clk := fun _ => 0%Q; o_ext := fun _ => false |}.
+Definition ex12e_params : params :=
+  {| n_workers := 1; async := true; wait_completion := false; max_failures := 1; sjwd := true; c_wallclock := None;
+     c_evals := Some 0%Z; c_started := None; c_completed := None; c_finished := None; c_cost := None; c_min_metric := None;
+     c_max_metric := None |}.
+Theorem c12_overshoot_evaluations_n_workers_refuted :
+  exists prm o fuel v, wait_completion prm = false /\ c_evals prm = Some v /\
+    (v + Z.of_nat (n_workers prm) < s_count (fst (run_loop prm o fuel)))%Z.
+Proof. exists ex12e_params, ex12e_oracles, 5%nat, 0%Z. vm_compute. repeat split. Qed.
+Print Assumptions c12_overshoot_evaluations_n_workers_refuted.
 
 (* run() returned, normally or by exception (every outcome except running out of model fuel):
    callbacks' on_tuning_end and backend.stop_all ran exactly once, the trace is the loop's trace followed by
@@ -140,7 +195,7 @@ Definition ex12l_oracles : oracles :=
      o_ord := fun _ => []; o_dec := fun _ => CONTINUE;
      o_sug := fun n => SStart (Z.of_nat n) None; o_clk := fun _ => 0%Q; o_ext := fun n => Nat.leb 3 n |}.
 Definition ex12l_params : params :=
-  {| n_workers := 2; async := true; wait_completion := true; max_failures := 1; c_wallclock := None; c_evals := None;
+  {| n_workers := 2; async := true; wait_completion := true; max_failures := 1; sjwd := true; c_wallclock := None; c_evals := None;
      c_started := None; c_completed := None; c_finished := None; c_cost := None; c_min_metric := None; c_max_metric := None |}.
 Example c12_drain_example :
   (let '(st0, x0) := run_loop ex12l_params ex12l_oracles 3 in
@@ -155,7 +210,7 @@ Definition ex12_oracles : oracles :=
   {| o_world := fun _ => ([], WInProgress); o_ord := fun _ => []; o_dec := fun _ => CONTINUE;
      o_sug := fun n => SStart (Z.of_nat n) None; o_clk := fun _ => 0%Q; o_ext := fun _ => false |}.
 Definition ex12_params : params :=
-  {| n_workers := 2; async := true; wait_completion := false; max_failures := 1; c_wallclock := None; c_evals := None;
+  {| n_workers := 2; async := true; wait_completion := false; max_failures := 1; sjwd := true; c_wallclock := None; c_evals := None;
      c_started := Some 1%Z; c_completed := None; c_finished := None; c_cost := None; c_min_metric := None; c_max_metric := None |}.
 Example c12_example :
   let '(st, out) := run ex12_params ex12_oracles 10 in
